@@ -158,6 +158,12 @@ func (fr *Frame) call(site ssa.Instruction, c *ssa.CallCommon, reach T, st *Stat
 		// dynamic call of a function value: closure known in this frame?
 		if ci := fr.findClosure(c.Value); ci != nil {
 			res = fr.inline(site, ci, c.Args, reach, st)
+		} else if ex.fc.DynOpaque {
+			ex.assumed["function value supplied by the caller is called as opaque (assumed without effect on the verified heap) at "+ex.pos(site.Pos())] = true
+			for i := 0; i < sig.Results().Len(); i++ {
+				rt := sig.Results().At(i).Type()
+				res = append(res, ex.freshOfType(fmt.Sprintf("f%d_dyn_%d_r%d", fr.id, fr.callOrd[site], i), rt, tTrue, nil))
+			}
 		} else if fr.libraryFuncValue(c.Value) {
 			// a function value handed out by a library call (e.g. a context.CancelFunc): calling it is a library call
 			// without effect on the module's heap (recorded as an assumption)
